@@ -261,7 +261,13 @@ def extract():
     mr = "letrequired_strength=format.as_ref().and_then(|f|f.parse::<i32>().ok()).unwrap_or(parent_binding_strength);" in sq
     if not (md and mc and mr):
         raise ExtractError("translate_operator changed shape")
-    if "text+=&arg.into_source();" not in sq or "text+=s;" not in sq:
+    guard = 'letsource=arg.into_source();iftext.ends_with(\'-\')&&source.starts_with(\'-\'){text+="(";text+=&source;text+=")";}else{text+=&source;}'
+    if guard in sq and "text+=s;" in sq:
+        info["minus_guard"] = True       # fixes/F3b: an operand whose text starts with `-` directly after a `-` is wrapped
+    elif "text+=&arg.into_source();" in sq and "text+=s;" in sq:
+        info["minus_guard"] = False
+    else:
+        info["minus_guard"] = False
         soft("translate_operator: text assembly changed")
     mco = re.search(r"if!ctx\.query\.window_function\{ifletSome\(default\)=coalesce\{text=format!\(\s*\)?", sq)
     if "binding_strength=100;" not in sq.split("ifletSome(default)=coalesce")[1]:
@@ -313,6 +319,8 @@ def generate():
     v += "Definition template_operand_is_left : bool := %s.\nDefinition template_operand_assoc : assoc3 := A_%s.\n" % (B(info["template_operand"][0]), info["template_operand"][1])
     v += "Definition template_default_strength : nat := %d.\n" % info["template_default_strength"]
     v += "Definition wrapped_source_strength : nat := %d.\nDefinition sstring_strength : nat := %d.\n" % (info["wrapped_source_strength"], info["sstring_strength"])
+    v += "(* translate_operator wraps an operand whose text starts with `-` when the template text in front of it ends with `-` *)\n"
+    v += "Definition minus_guard : bool := %s.\n" % ("true" if info.get("minus_guard") else "false")
     v += "(* needs_parentheses / translate_operand / translate_binary_operator / process_null / try_into_between /\n   translate_operator have exactly the bodies modelled in Model/SqlPrint.v (checked textually by the translator) *)\n"
     for e in info["shape_errors"]:
         v += "(* CHANGED: %s *)\n" % e.replace("*)", "* )")
